@@ -546,6 +546,43 @@ func genC02(r *vh.Runner) {
 			})
 		}
 	}
+	// servers whose handshake timer fires at once (or nearly): whatever then
+	// completes on both sides has completed with the same identifier and keys
+	nt := r.Pick(24, 600)
+	for k := 0; k < nt; k++ {
+		r.Case(fmt.Sprintf("tiny-handshake-timeout/%d", k), map[string]any{"rep": k}, func(c *vh.Case) {
+			c.Bubble(func() {
+				rng := vh.NewRand(r.Seed, "c02-tiny", k)
+				hidden := rng.Chance(0.6)
+				d := time.Duration(rng.Pick(1, 1, 1000, 100000, 1000000))
+				cv := &transport.VerifyConfig{}
+				w := fix.NewWorld(true, cv, func(sc *transport.ServerConfig) { sc.HandshakeTimeout = d; sc.IsHidden = hidden })
+				cv.Store = w.PKI.Store()
+				defer w.Server.Close()
+				id := w.PKI.Issue()
+				for rep := 0; rep < 6 && !c.Violated(); rep++ {
+					cl, ep := w.NewClient(id, hidden, 2*time.Second)
+					res := runHandshake(cl)
+					bub.Settle(20 * time.Millisecond)
+					r.Count("evaluations", 1)
+					r.Count("tiny_timeout_handshakes", 1)
+					if res.Err == nil && res.ClientOK {
+						for _, ss := range serverSessionsFor(w, ep.Source()) {
+							r.Count("tiny_timeout_both_completed", 1)
+							if ss.ID != res.ClientSess.ID {
+								c.Violate("C02:completed-with-different-session-identifiers", map[string]any{"hidden": hidden, "server_handshake_timeout": d.String(),
+									"client": hex.EncodeToString(res.ClientSess.ID[:]), "server": hex.EncodeToString(ss.ID[:])})
+							} else if ss.C2S != res.ClientSess.C2S || ss.S2C != res.ClientSess.S2C {
+								c.Violate("C02:completed-with-different-keys", map[string]any{"hidden": hidden, "server_handshake_timeout": d.String()})
+							}
+						}
+					}
+					cl.Close()
+				}
+				r.Nontrivial(fmt.Sprintf("tiny|%d", k))
+			})
+		})
+	}
 	r.Case("enumeration-complete", lens, func(c *vh.Case) { r.Count("exhaustive_spaces_completed", 1) })
 }
 
